@@ -36,7 +36,7 @@ func propC13(c *Ctx) propInfo {
 	c.floor("E12.selection", 5)
 	c.floor("E9.K7-waitlist-ids", 2)
 	return propInfo{
-		explanation: "Static structural clauses of C13 (DESIGN.md §4 C13): guarded-by table for ConnPool and connection under a must-lockset dataflow, pairing, no blocking operation under a lock, acyclic lock order, every wait of the exported wait functions is a select with a ctx.Done() case (and a timer case for WaitMasterchainSeqno), both selection functions reject a connection under exactly the same two predicates and update their running best only behind both filters, the refresh stores bestConn only when a candidate was found, and registered wait-list ids can never equal the id returned on the fast path. Decides these necessary conditions, not optimality over all configurations or wait latency.",
+		explanation: "Static structural clauses of C13 (DESIGN.md §4 C13): guarded-by table for ConnPool and connection under a must-lockset dataflow, pairing, no blocking operation under a lock, acyclic lock order, every wait of the exported wait functions is a select with a ctx.Done() case (and a timer case for WaitMasterchainSeqno), both selection functions reject a connection under exactly the same two predicates and update their running best only behind both filters, the refresh stores bestConn only when a candidate was found, and registered wait-list ids can never equal the id returned on the fast path. Decides these necessary conditions, not optimality over all configurations or wait latency. The best-ping replacement compares with the running best's own round-trip time or a copy updated on the same edges; accepted heads are published with one blocking send (K8).",
 		assumptions: []string{"lock identity is type based", "sync primitives behave as documented"},
 	}
 }
